@@ -6,6 +6,7 @@ EXTENDS PGPFramingStream
 SizesQ == {0, 1, 3, 7, 8, 9, 17}
 SizesT == {0, 1, 2, 3, 5, 7, 8, 9, 15, 16, 17, 20}
 ReadsQ == {1, 3, 8, 64}
+ReadsW == {3, 64}
 
 \* crafted streams: any partial chunk exponents, a final length in the one-, two-(not expressible below 192)- or five-octet
 \* form, definite-length packets in new and old format
